@@ -53,7 +53,9 @@ func ytID(g *docGen) string {
 
 // embedURL writes the URL of the case: scheme kind, userinfo, host labels, path segments
 // (tokens ID / ROOT replaced), query, fragment.
-func embedURL(c Case, id, rootName string, ampQuery bool) string {
+func embedURL(c Case, id, rootName string, ampQuery bool, qv int) string {
+	// the parameters of a "plain" query: players take many, and some are named like the attributes of the placeholder
+	params := []string{"rel=0&autoplay=1", "id=zqdecoy7&rel=0", "type=vimeo&start=5", "autoplay=1&type=zqt&id=zqdecoy8"}[qv%4]
 	hostL := strList(c.list("hostL"))
 	userL := strList(c.list("userL"))
 	segs := strList(c.list("path"))
@@ -91,9 +93,9 @@ func embedURL(c Case, id, rootName string, ampQuery bool) string {
 	case "plain":
 		// YouTube also accepts (and old embed codes use) "&" before the first parameter: .../v/ID&rel=0
 		if ampQuery && strings.Contains(rootName, "youtube") && len(segs) > 0 && segs[len(segs)-1] == id {
-			sb.WriteString("&rel=0&autoplay=1")
+			sb.WriteString("&" + params)
 		} else {
-			sb.WriteString("?rel=0&autoplay=1")
+			sb.WriteString("?" + params)
 		}
 	case "hostlike":
 		sb.WriteString("?u=http://www." + rootName + "/embed/zqq1&rel=0")
@@ -332,7 +334,7 @@ func runEmbed(c Case, e *env) []Event {
 	}
 	decoy := digits(g, 17)
 	marker := fmt.Sprintf("zqmk%d", 100000+g.rng.Intn(900000))
-	url := embedURL(c, id, rootName, g.rng.Intn(3) == 0)
+	url := embedURL(c, id, rootName, g.rng.Intn(3) == 0, g.rng.Intn(4))
 	page := "<!DOCTYPE html><html><head><title>" + g.words(5) + "</title></head><body>" +
 		g.para(70) + embedCarrier(c, g, url, tid, decoy, marker) + g.para(65) + "</body></html>"
 	doc, err := xhtml.Parse(strings.NewReader(page))
